@@ -28,6 +28,7 @@
     chain_wellnested buffers_balanced before_after_any_stream
     invert_wrap_breaks_nesting attr_wrap_emits_empty_wrapper
     select_only_id_ok selects_only_id filler_unnamed_unchanged filler_unnamed_id
+    filler_start_events filler_text_events
     filler_empty_id filler_only_value_attrs_partial filler_no_text_change_partial
     filler_wellnested_partial filler_fills_given_partial filler_checks_given filler_selects_given
     filler_fills_textarea_partial filler_no_passwords
@@ -455,6 +456,59 @@ theorem filler_unnamed_unchanged (c : Cfg) (a : AttrList)
     (`filler_empty_id` is the special case of empty data). -/
 theorem filler_unnamed_id (c : Cfg) (s : Stream) (h : Unnamed c s) : fill c s = some s :=
   fillGo_unnamed s h {} rfl rfl
+
+/-- What the filler does with a START event, in every state: it holds it back (an option inside
+    a select named in the data), passes it unchanged, or — for an `input` element only — passes it
+    with `inputAttrs`, which is the identity unless the input is named in the data
+    (`filler_unnamed_unchanged`). No other START event is ever altered. -/
+theorem filler_start_events (c : Cfg) (st st' : St) (tag : QName) (a : AttrList) (o : Stream)
+    (h : step c st (.start tag a) = some (st', o)) :
+    (o = [] ∧ st.inSelect = true ∧ tag.loc = sOption) ∨ o = [.start tag a] ∨
+    (tag.loc = sInput ∧ o = [.start tag (inputAttrs c a)]) := by
+  simp only [step] at h
+  split at h
+  · simp only [Option.some.injEq, Prod.mk.injEq] at h; exact Or.inr (Or.inl h.2.symm)
+  · split at h
+    · split at h
+      · rename_i hi
+        simp only [Option.some.injEq, Prod.mk.injEq] at h
+        exact Or.inr (Or.inr ⟨hi, h.2.symm⟩)
+      · split at h
+        · split at h <;>
+          · simp only [Option.some.injEq, Prod.mk.injEq] at h; exact Or.inr (Or.inl h.2.symm)
+        · split at h
+          · split at h <;>
+            · simp only [Option.some.injEq, Prod.mk.injEq] at h; exact Or.inr (Or.inl h.2.symm)
+          · split at h
+            · rename_i hs
+              simp only [Bool.and_eq_true, decide_eq_true_eq] at hs
+              simp only [Option.some.injEq, Prod.mk.injEq] at h
+              exact Or.inl ⟨h.2.symm, hs.1, hs.2⟩
+            · simp only [Option.some.injEq, Prod.mk.injEq] at h; exact Or.inr (Or.inl h.2.symm)
+    · simp only [Option.some.injEq, Prod.mk.injEq] at h; exact Or.inr (Or.inl h.2.symm)
+
+/-- … and with a TEXT event: it passes unchanged, is held back with the option it belongs to
+    (and re-emitted at the END of the option, `filler_selects_given`), or is dropped — the latter
+    only inside a textarea named in the data (`inTextarea` is set by nothing else). -/
+theorem filler_text_events (c : Cfg) (st st' : St) (t : Str) (f : Bool) (o : Stream)
+    (h : step c st (.text t f) = some (st', o)) :
+    o = [.text t f] ∨
+    (o = [] ∧ st.inSelect = true ∧ st.inOption = true ∧ st'.optionText = st.optionText ++ [.text t f]) ∨
+    (o = [] ∧ st.inTextarea = true ∧ st' = st) := by
+  simp only [step] at h
+  split at h
+  · split at h
+    · rename_i hs
+      simp only [Bool.and_eq_true] at hs
+      simp only [Option.some.injEq, Prod.mk.injEq] at h
+      obtain ⟨rfl, rfl⟩ := h
+      exact Or.inr (Or.inl ⟨rfl, hs.1, hs.2, rfl⟩)
+    · split at h
+      · rename_i ht
+        simp only [Option.some.injEq, Prod.mk.injEq] at h
+        exact Or.inr (Or.inr ⟨h.2.symm, ht, h.1.symm⟩)
+      · simp only [Option.some.injEq, Prod.mk.injEq] at h; exact Or.inl h.2.symm
+  · simp only [Option.some.injEq, Prod.mk.injEq] at h; exact Or.inl h.2.symm
 
 /-- Known finding C20-option-children (negation of `optText`): child elements of an option are
     moved in front of it.  `<form><select name="s"><option><b>x</b>y</option></select></form>`
